@@ -20,6 +20,7 @@ CONSTANTS MaxSteps, DevAvg, DevArr, DevStale,
 CONSTANTS Disturbs,     \* TRUE: between any two calls the thread may decode arbitrary other streams (action Disturb),
                         \*       among them streams whose decode fails at every possible point; decompress then runs on
                         \*       the thread-aware layer (ImplDecompressT)
+          DevDocInd,    \* open findings doc-indirect.*: Document::decompress does not resolve references (TRUE = as the code is)
           DevInd,       \* open findings indirect.*: Stream::decompress guesses when an entry is written as a reference
           DevRows       \* the PNG row buffers survive a failed decode (Codecs, "Thread history"); TLC must refute it
 
@@ -108,7 +109,8 @@ Decompress == \E i \in 1..2 : LET d == DecompOne(ss[i], rows) IN
                 Step("decompress", i, <<>>, [ss EXCEPT ![i] = d.s]) /\ After(d.rows)
 DocCompress == \E c1 \in Candidates(ss[1].content), c2 \in Candidates(ss[2].content) :
                 Step("doc_compress", 0, <<>>, ImplDocCompress(ss, <<c1, c2>>, DevStale)) /\ Calm
-DocDecompress == LET d1 == DecompOne(ss[1], rows) d2 == DecompOne(ss[2], d1.rows) IN      \* in object order, errors swallowed
+DocOne(s, rw) == DecompOne(IF DevDocInd THEN s ELSE Resolved(s), rw)       \* the Document resolves references first
+DocDecompress == LET d1 == DocOne(ss[1], rows) d2 == DocOne(ss[2], d1.rows) IN      \* in object order, errors swallowed
                 Step("doc_decompress", 0, <<>>, <<d1.s, d2.s>>) /\ After(d2.rows)
 
 \* the thread decodes some other stream (its result is thrown away; only the scratch state can carry over)
@@ -136,7 +138,8 @@ Good4(i) ==
     ELSE CASE last.op = "set_content"       -> SetContentOK(last.pre[i], last.arg, ss[i])
            [] last.op = "set_plain_content" -> SetPlainOK(last.pre[i], last.arg, ss[i])
            [] last.op \in {"compress", "doc_compress"}     -> CompressOK(last.pre[i], ss[i])
-           [] last.op \in {"decompress", "doc_decompress"} -> DecompressOK(last.pre[i], ss[i])
+           [] last.op = "decompress" -> DecompressOK(last.pre[i], ss[i])
+           [] last.op = "doc_decompress" -> DocDecompressOK(last.pre[i], ss[i])
            [] last.op = "disturb" -> ss[i] = last.pre[i]
            [] OTHER -> TRUE
 StepOK == \A i \in 1..2 : Good4(i)
